@@ -125,8 +125,19 @@ func (i *wisInstance) Close() { i.f.Close() }
 
 // snapshotConfigs returns deep copies of every config object in the instance's store.
 func (i *wisInstance) snapshotConfigs() []config.Config {
+	// Only the kinds the workload writes: the aggregate store also lists objects the control plane derives
+	// itself (e.g. a TrafficExtension translated from a WasmPlugin), which are not API-server state.
 	var out []config.Config
 	for _, s := range collections.Pilot.All() {
+		base := false
+		for _, g := range kindGVK {
+			if g == s.GroupVersionKind() {
+				base = true
+			}
+		}
+		if !base {
+			continue
+		}
 		for _, c := range i.fds.Store().List(s.GroupVersionKind(), "") {
 			out = append(out, c.DeepCopy())
 		}
@@ -180,14 +191,23 @@ func (w *wis) connect(c *xdsClient, inst *wisInstance, permuteDeps bool) {
 	end := c.streamEnd
 	c.streams++
 	c.connected = true
+	c.inst = inst
 	if c.delta {
 		st := newSimStream[discovery.DeltaDiscoveryRequest, discovery.DeltaDiscoveryResponse](w.ctx, addr, nil)
 		c.dstr = st
-		go func() { end <- inst.fds.Discovery.StreamDeltas(st) }()
+		go func() {
+			err := inst.fds.Discovery.StreamDeltas(st)
+			st.Cut() // a gRPC server cancels the stream context when the handler returns
+			end <- err
+		}()
 	} else {
 		st := newSimStream[discovery.DiscoveryRequest, discovery.DiscoveryResponse](w.ctx, addr, nil)
 		c.sotw = st
-		go func() { end <- inst.fds.Discovery.Stream(st) }()
+		go func() {
+			err := inst.fds.Discovery.Stream(st)
+			st.Cut() // a gRPC server cancels the stream context when the handler returns
+			end <- err
+		}()
 	}
 	c.startStream(permuteDeps)
 	synctest.Wait()
